@@ -46,6 +46,14 @@ def ops_list(full):
                 ops.append(("%s-%s-%s" % (name, bn, a), d, False))
     for bn, bad in (("None", None), ("list", list(T.AA)), ("string", "red"), ("int", 3), ("list-of-pairs", [(a, "red") for a in T.AA])):
         ops.append(("nondict-" + bn, bad, False))
+    # a missing amino acid together with enough other keys to bring the dictionary (back) to 20 or more entries
+    for a in (T.AA if full else T.AA[::4]):
+        for extras in (("a",), ("B", "Z", "X"), (a.lower(), "J", "O", "U")):
+            d = dict(T.DEFAULT_PALETTE)
+            del d[a]
+            for e in extras:
+                d[e] = "red"
+            ops.append(("missing-%s-with-extra-%s" % (a, "".join(extras)), d, False))
     # dont-care: upper-case colour names, extra keys
     d = dict(T.DEFAULT_PALETTE)
     d["A"] = "Red"
@@ -114,7 +122,10 @@ def check_render(seq, palette, html, case, out):
 
 
 def observe_palette(o):
-    toks = parse_html(o.get_HTMLColorString())
+    try:
+        toks = parse_html(o.get_HTMLColorString())
+    except Exception as e:  # noqa  (rendering failed: reported by the caller as an observation that matches no palette)
+        return "rendering raised %r" % (e,)
     if toks is None:
         return None
     return {r: c for r, c, _, _ in toks}
@@ -392,6 +403,14 @@ def render_inputs(full):
         long_ = rot * 6
         for L in (range(1, 121) if full else (1, 9, 10, 11, 20, 49, 50, 51, 60, 99, 100, 101, 120)):
             seqs.append(long_[:L])
+    # tracts: a run of 10..25 identical residues starting at every offset 38..52 inside an irregular sequence (runs that start
+    # mid-block and cross a multiple of 10 / 50), and two-residue block sequences A^k B^k with k = 3..26
+    host = (CYCLE * 8)
+    for start in (range(38, 53) if not full else range(0, 60)):
+        for run in ((10, 14, 25) if not full else (9, 10, 11, 14, 20, 25, 51)):
+            seqs.append(host[:start] + "Q" * run + host[start:start + 30])
+    for k in range(3, 27):
+        seqs.append(("A" * k + "K" * k) * (120 // (2 * k) + 1))
     return seqs
 
 
@@ -559,7 +578,7 @@ def run(tier, seed, t0):
              "palette entry, exactly one space before residues 0,10,20,.., a <br> before residues 0,50,100,.., stripped markup == "
              "sequence. Scenarios: the caller edits its own dictionary in place after an accepted update (the palette must not follow, the "
              "re-submission must be rejected and change nothing); in a freshly imported package the very first object receives each "
-             "valid palette and an object created afterwards must still render with the default. a dictionary that colours all 20 residues validly and carries extra keys is accepted (extras ignored); pickle / deepcopy / copy duplicates keep the palette; all 17 colours are accepted with warnings as errors, numpy errors raising and an ASCII-only stdout; objects not built from a string (swap children, explicit charge pattern, shuffles) validate their first update and render with the default; sequences of 2551..12851 residues (thorough 51201); two palettes resubmitted with their keys inserted in six other orders render identically; with two handles on one sequence object (second wrapper / backend object) an update accepted through one and rejected through the other leaves every handle on the accepted palette; after analyses, plots and a shuffle on the same object the palette is unchanged. dont-care: upper-case colour names; non-trivial = renders longer than one block of 10" % (
+             "valid palette and an object created afterwards must still render with the default. a dictionary that colours all 20 residues validly and carries extra keys is accepted (extras ignored); pickle / deepcopy / copy duplicates keep the palette; all 17 colours are accepted with warnings as errors, numpy errors raising and an ASCII-only stdout; a missing residue together with extra keys that keep the dictionary at 20+ entries is rejected; runs of 10-25 identical residues starting at offsets 38..52 and A^kB^k blocks are rendered; objects not built from a string (swap children, explicit charge pattern, shuffles) validate their first update and render with the default; sequences of 2551..12851 residues (thorough 51201); two palettes resubmitted with their keys inserted in six other orders render identically; with two handles on one sequence object (second wrapper / backend object) an update accepted through one and rejected through the other leaves every handle on the accepted palette; after analyses, plots and a shuffle on the same object the palette is unchanged. dont-care: upper-case colour names; non-trivial = renders longer than one block of 10" % (
                  len(ops), "all" if full else "3", ", None, 5" if full else "", "1..120" if full else "{1,9,10,11,20,49,50,51,60,99,100,101,120}"),
         bounds={"palette_ops": len(ops), "render_inputs_per_state": len(seqs), "depth": "fixpoint"},
         assumptions=["the palette is observed through rendering only (no attribute reads)"])
